@@ -106,7 +106,7 @@ func init() {
 	mutant("retryable-after-write", "retryable-pre-wire", "conn.go", "		release()\n		c.deletePending(id)\n\n		return err", "		release()\n		c.deletePending(id)\n\n		return ErrConnectionClosed")
 	mutant("dequeue-without-resolve", "removal-implies-resolve", "conn.go", "		err := c.writeRequest(ctx)\n			if err != nil {\n				ctx.resolve(err)\n", "		err := c.writeRequest(ctx)\n			if err != nil {\n")
 	mutant("resolve-blocking", "resolve-protocol", "client.go", "		select {\n		case ctx.Err <- err:\n		default:\n		}", "		ctx.Err <- err")
-	mutant("drain-before-close", "resolve-protocol", "conn.go", "	_ = c.Close()\n\n	for _, ctx := range c.takeAllReqs() {\n		ctx.resolve(lastErr)\n	}\n", "	for _, ctx := range c.takeAllReqs() {\n		ctx.resolve(lastErr)\n	}\n\n	_ = c.Close()\n")
+	mutant("drain-before-close", "resolve-protocol", "conn.go", "	first, _ := c.shut()\n\n	for _, ctx := range c.takeAllReqs() {\n		ctx.resolve(lastErr)\n	}\n", "	for _, ctx := range c.takeAllReqs() {\n		ctx.resolve(lastErr)\n	}\n\n	first, _ := c.shut()\n")
 	// ---- pools / ownership / totality
 	mutant("double-release-on-short-read", "release-field-then-nil", "frameHeader.go", "			f.fr = nil\n\n			return 0, err", "			return 0, err")
 	mutant("use-after-release", "no-use-after-release", "conn.go", "		stop := c.dispatch(fr)\n\n		ReleaseFrameHeader(fr)\n", "		ReleaseFrameHeader(fr)\n\n		stop := c.dispatch(fr)\n")
@@ -679,7 +679,7 @@ func init() {
 	mutant("client-continuation-skips-octets", "header-block-emitters", "conn.go", "		cont.SetHeader(rest[:n])\n\n		rest = rest[n:]", "		cont.SetHeader(rest[:n])\n\n		rest = rest[step:]")
 	mutant("client-first-frame-keeps-end-headers", "header-block-emitters", "conn.go", "	h.SetHeaders(block[:step])\n	h.SetEndHeaders(false)", "	h.SetHeaders(block[:step])\n	h.SetEndHeaders(true)")
 	mutant("client-bound-ignores-the-servers-setting", "header-block-emitters", "conn.go", "func (c *Conn) writeHeaderBlock(fr *FrameHeader, h *Headers) error {\n	step := int(atomic.LoadUint32(&c.maxFrameSize))", "func (c *Conn) writeHeaderBlock(fr *FrameHeader, h *Headers) error {\n	step := int(maxFrameSize)")
-	mutant("client-header-block-written-outside-the-lock", "header-block-emitters", "conn.go", "	c.bwLck.Lock()\n\n	err := c.writeHeaderBlock(fr, h)\n	if err == nil {\n		err = c.bw.Flush()\n	}\n\n	c.bwLck.Unlock()", "	err := c.writeHeaderBlock(fr, h)\n\n	c.bwLck.Lock()\n\n	if err == nil {\n		err = c.bw.Flush()\n	}\n\n	c.bwLck.Unlock()")
+	mutant("client-header-block-written-outside-the-lock", "header-block-emitters", "conn.go", "	c.lockWrites()\n\n	err := c.writeHeaderBlock(fr, h)\n	if err == nil {\n		err = c.bw.Flush()\n	}\n\n	c.bwLck.Unlock()", "	err := c.writeHeaderBlock(fr, h)\n\n	c.lockWrites()\n\n	if err == nil {\n		err = c.bw.Flush()\n	}\n\n	c.bwLck.Unlock()")
 }
 
 func init() {
@@ -703,4 +703,17 @@ func init() {
 	mutant("carried-bytes-not-checked-after-a-rejection", "buffer-append-bounded", "serverConn.go", "	if err := sc.checkCarried(len(carry)); err != nil {\n		return err\n	}\n\n	return reason", "	return reason")
 	mutant("carried-bytes-not-checked-when-discarding", "buffer-append-bounded", "serverConn.go", "		if err == nil {\n			err = sc.checkCarried(len(carry))\n		}\n", "")
 	mutant("oversized-field-is-a-stream-error", "buffer-append-bounded", "serverConn.go", "		return NewGoAwayError(EnhanceYourCalm, \"header field exceeds the maximum size\")", "		return NewResetStreamError(EnhanceYourCalm, \"header field exceeds the maximum size\")")
+}
+
+func init() {
+	mutant("ctx-wait-does-not-bound-the-write", "no-blocking-under-ctx-lock", "client.go", "	if c := ctx.conn.Load(); c != nil {\n		c.boundWrite()\n	}\n\n	ctx.lck.Lock()", "	ctx.lck.Lock()")
+	mutant("take-back-waits-on-the-bare-mutex", "no-blocking-under-ctx-lock", "client.go", "func (ctx *Ctx) takeBack() {\n	ctx.lock()", "func (ctx *Ctx) takeBack() {\n	ctx.lck.Lock()")
+	mutant("write-grace-is-an-hour", "no-blocking-under-ctx-lock", "conn.go", "const writeGrace = 2 * time.Second", "const writeGrace = time.Hour")
+	mutant("deadline-marked-before-it-is-set", "no-blocking-under-ctx-lock", "conn.go", "	_ = c.c.SetWriteDeadline(time.Now().Add(writeGrace))\n\n	atomic.StoreInt32(&c.writeBounded, 1)", "	atomic.StoreInt32(&c.writeBounded, 1)\n\n	_ = c.c.SetWriteDeadline(time.Now().Add(writeGrace))")
+	mutant("stale-deadline-never-cleared", "no-blocking-under-ctx-lock", "conn.go", "	if atomic.CompareAndSwapInt32(&c.writeBounded, 1, 0) {\n		_ = c.c.SetWriteDeadline(time.Time{})\n	}\n", "")
+	mutant("close-waits-for-the-stuck-write", "no-blocking-under-ctx-lock", "conn.go", "	c.boundWrite()\n\n	c.bwLck.Lock()", "	c.bwLck.Lock()")
+	mutant("callback-before-the-requests-are-answered", "resolve-protocol", "conn.go", "	first, _ := c.shut()\n\n	for _, ctx := range c.takeAllReqs() {", "	_ = c.Close()\n	first := false\n\n	for _, ctx := range c.takeAllReqs() {")
+	mutant("handshake-deadline-after-tls", "dial-bounded", "conn.go", "	_ = c.SetDeadline(time.Now().Add(handshakeTimeout))\n\n	tlsConn := tls.Client(c, d.TLSConfig)\n\n	if err := tlsConn.Handshake(); err != nil {\n		_ = c.Close()\n		return nil, err\n	}", "	tlsConn := tls.Client(c, d.TLSConfig)\n\n	if err := tlsConn.Handshake(); err != nil {\n		_ = c.Close()\n		return nil, err\n	}\n\n	_ = c.SetDeadline(time.Now().Add(handshakeTimeout))")
+	mutant("handshake-deadline-never-removed", "dial-bounded", "conn.go", "	if err == nil {\n		err = c.SetDeadline(time.Time{})\n	}\n\n	return nc, err", "	return nc, err")
+	mutant("handshake-deadline-removed-before-the-handshake", "dial-bounded", "conn.go", "	err = nc.Handshake()\n	if err == nil {\n		err = c.SetDeadline(time.Time{})\n	}", "	err = c.SetDeadline(time.Time{})\n	if err == nil {\n		err = nc.Handshake()\n	}")
 }
